@@ -1,0 +1,142 @@
+//go:build verif
+// +build verif
+
+package anchoring
+
+// Contracts for gocv (comment-only; compiled out unless the tag "verif" is set, and empty then).
+
+// ---- reference points: the coefficient-weighted best (ideal) or worst (nadir) value per criterion (C19)
+
+// isBetter(criterion, a, b) answers "b is at least as good as a" on the coefficient-weighted scale:
+// value x coefficient for a gain criterion, value / coefficient for a cost criterion (stated without the division).
+//@ func isBetter
+//@   property C19
+//@   nopanic
+//@   ensures [gain_compares_products] criterion.Type != model.Cost ==> (result <==> (a.value * a.coefficient == b.value * b.coefficient ? a.value <= b.value : a.value * a.coefficient < b.value * b.coefficient))
+//@   ensures [cost_compares_quotients] criterion.Type == model.Cost ==> (result <==> (a.value * b.coefficient == b.value * a.coefficient ? a.value >= b.value : a.value * b.coefficient > b.value * a.coefficient))
+//@   ensures [gain_new_not_lower] criterion.Type != model.Cost ==> (result ==> b.value * b.coefficient >= a.value * a.coefficient) && (!result ==> a.value * a.coefficient >= b.value * b.coefficient)
+//@   ensures [cost_new_not_higher] criterion.Type == model.Cost && a.coefficient > 0.0 && b.coefficient > 0.0 ==>
+//@             (result ==> b.value / b.coefficient <= a.value / a.coefficient) && (!result ==> a.value / a.coefficient <= b.value / b.coefficient)
+
+//@ func canNewBeBetter
+//@   property C19
+//@   nopanic
+//@   ensures [zero_coefficient_never_replaces_nonzero] result <==> !(b.coefficient == 0.0 && a.coefficient != 0.0)
+
+// the comparators the two evaluators hand to findBest: ideal replaces on "new is better", nadir on "new is not better"
+//@ func (*IdealReferenceAlternativeEvaluator).Evaluate$1
+//@   property C19
+//@   nopanic
+//@   ensures [ideal_takes_the_better] a.coefficient > 0.0 && b.coefficient > 0.0 ==> (result <==>
+//@             (c.Type != model.Cost ? (a.value * a.coefficient == b.value * b.coefficient ? a.value <= b.value : a.value * a.coefficient < b.value * b.coefficient)
+//@                                   : (a.value * b.coefficient == b.value * a.coefficient ? a.value >= b.value : a.value * b.coefficient > b.value * a.coefficient)))
+//@ func (*NadirReferenceAlternativeEvaluator).Evaluate$1
+//@   property C19
+//@   nopanic
+//@   ensures [nadir_takes_the_worse] a.coefficient > 0.0 && b.coefficient > 0.0 ==> (result <==>
+//@             !(c.Type != model.Cost ? (a.value * a.coefficient == b.value * b.coefficient ? a.value <= b.value : a.value * a.coefficient < b.value * b.coefficient)
+//@                                    : (a.value * b.coefficient == b.value * a.coefficient ? a.value >= b.value : a.value * b.coefficient > b.value * a.coefficient)))
+
+// fromAnchors: a value-with-coefficient is the value and coefficient of one of the anchoring alternatives on criterion q
+//@ pred fromAnchors(x valueWithCoefficient, alts []AnchoringAlternativeWithCriteria, q string, n int) =
+//@      exists k int :: 0 <= k && k < n && q in alts[k].Alternative.Criteria && x.value == alts[k].Alternative.Criteria[q] && x.coefficient == alts[k].Coefficient
+
+//@ func prepareCriteriaWithCoefficients
+//@   property C19
+//@   panics_iff [no_anchoring_alternative] len(*alternatives) == 0
+//@   ensures [starts_from_the_first] fresh(result) && fresh(*result) && forall q string :: (q in *result <==> q in (*alternatives)[0].Alternative.Criteria)
+//@             && (q in *result ==> (*result)[q].value == (*alternatives)[0].Alternative.Criteria[q] && (*result)[q].coefficient == (*alternatives)[0].Coefficient)
+//@   loop 1 invariant [ctx] fresh(best) && best != nil && firstAlternative == (*alternatives)[0]
+//@   loop 1 invariant [copied] forall q string :: seen(q) ==> (q in best && best[q].value == firstAlternative.Alternative.Criteria[q] && best[q].coefficient == firstAlternative.Coefficient)
+//@   loop 1 invariant [only] forall q string :: q in best ==> seen(q)
+
+//@ func extractCriteriaValues
+//@   property C19
+//@   nopanic
+//@   ensures [values_only] fresh(result) && result != nil && forall q string :: (q in result <==> q in *best) && (q in *best ==> result[q] == (*best)[q].value)
+//@   loop 1 invariant [ctx] fresh(result) && result != nil
+//@   loop 1 invariant [copied] forall q string :: seen(q) ==> (q in result && result[q] == (*best)[q].value)
+//@   loop 1 invariant [only] forall q string :: q in result ==> seen(q)
+
+//@ func findBestCriteriaValues
+//@   property C19
+//@   fnparam isBetter pure
+//@   requires len(*alternatives) >= 1 && *best != nil
+//@   requires [starts_from_anchors] forall q string :: q in *best ==> fromAnchors((*best)[q], *alternatives, q, 1)
+//@   assigns *best
+//@   ensures [same_criteria] forall q string :: (q in *best <==> old(q in *best))
+//@   ensures [among_the_anchors] forall q string :: q in *best ==> fromAnchors((*best)[q], *alternatives, q, len(*alternatives))
+//@   loop 1 invariant [ctx] 1 <= i && i <= len(*alternatives) && unchanged(*alternatives) && *best == old(*best)
+//@   loop 1 invariant [same_criteria] forall q string :: (q in *best <==> old(q in *best))
+//@   loop 1 invariant [among] forall q string :: q in *best ==> fromAnchors((*best)[q], *alternatives, q, i)
+//@   loop 2 invariant [ctx] 1 <= i && i < len(*alternatives) && alt == (*alternatives)[i] && unchanged(*alternatives) && *best == old(*best)
+//@   loop 2 invariant [same_criteria] forall q string :: (q in *best <==> old(q in *best))
+//@   loop 2 invariant [among] forall q string :: q in *best ==> fromAnchors((*best)[q], *alternatives, q, i + 1)
+
+//@ func findBest
+//@   property C19
+//@   fnparam isBetter pure
+//@   ensures [one_point_named_after_the_strategy] fresh(result) && len(result) == 1 && result[0].Id == name
+//@   ensures [per_criterion_value_of_an_anchor] forall q string :: (q in result[0].Criteria <==> q in (*alternatives)[0].Alternative.Criteria)
+//@             && (q in result[0].Criteria ==> exists k int :: 0 <= k && k < len(*alternatives) && q in (*alternatives)[k].Alternative.Criteria && result[0].Criteria[q] == (*alternatives)[k].Alternative.Criteria[q])
+
+// ---- gains and losses against a reference point (C19)
+
+// the gain / loss function behind the AnchoringEvaluator interface: a function of the evaluator, its parameters and the difference
+//@ spec anchf(f AnchoringEvaluator, p FunctionParams, d real) real
+//@ ifacemethod AnchoringEvaluator.Evaluate
+//@   ensures result == anchf(self, params, difference)
+
+//@ func (*LinearAnchoringEvaluator).Evaluate
+//@   property C19
+//@   ensures [linear] result == ((params.(*utils.LinearFunctionParameters).A == 0.0 && params.(*utils.LinearFunctionParameters).B == 0.0) ? 0.0
+//@             : params.(*utils.LinearFunctionParameters).A * difference + params.(*utils.LinearFunctionParameters).B)
+//@ func (*ExpFromZeroAnchoringEvaluator).Evaluate
+//@   property C19
+//@   ensures [exp_from_zero] result == params.(*utils.ExpFromZeroFunction).Multiplier * exp(params.(*utils.ExpFromZeroFunction).Alpha * difference) - params.(*utils.ExpFromZeroFunction).Multiplier
+
+// mapped(d): gain(d) for a positive scaled difference, -loss(-d) otherwise (zero counts as a loss of nothing)
+//@ spec mapped(loss AnchoringWithParams, gain AnchoringWithParams, d real) real = d > 0.0 ? anchf(gain.fun, gain.params, d) : 0.0 - anchf(loss.fun, loss.params, 0.0 - d)
+//@ spec scaledDiff(a model.AlternativeWithCriteria, r model.AlternativeWithCriteria, c model.Criterion, s ScaleWithValueRange) real = (model.signed(a, c) - model.signed(r, c)) * s.Scale
+
+//@ func calculateReferencePointDiffs
+//@   property C19
+//@   requires model.distinctCriteria(*criteria)
+//@   ensures [names_the_reference_point] result.ReferencePoint == r.Id && fresh(result.Coefficients)
+//@   ensures [gain_or_negated_loss_of_scaled_difference] forall k int :: 0 <= k && k < len(*criteria) ==> (*criteria)[k].Id in result.Coefficients
+//@             && result.Coefficients[(*criteria)[k].Id] == mapped(loss, gain, scaledDiff(a, r, (*criteria)[k], scaleRatios[(*criteria)[k].Id]))
+//@   ensures [only_criteria] forall q string :: q in result.Coefficients ==> exists k int :: 0 <= k && k < len(*criteria) && (*criteria)[k].Id == q
+//@   loop 1 invariant [ctx] fresh(referencePointsDiffs) && referencePointsDiffs != nil
+//@   loop 1 invariant [done] forall k int :: 0 <= k && k < iter ==> (*criteria)[k].Id in referencePointsDiffs
+//@             && referencePointsDiffs[(*criteria)[k].Id] == mapped(loss, gain, scaledDiff(a, r, (*criteria)[k], scaleRatios[(*criteria)[k].Id]))
+//@   loop 1 invariant [only] forall q string :: q in referencePointsDiffs ==> exists k int :: 0 <= k && k < iter && (*criteria)[k].Id == q
+
+//@ pred diffsOf(d ReferencePointDifference, a model.AlternativeWithCriteria, r model.AlternativeWithCriteria, criteria []model.Criterion, scaleRatios CriteriaScaling, loss AnchoringWithParams, gain AnchoringWithParams) =
+//@      d.ReferencePoint == r.Id && forall k int :: 0 <= k && k < len(criteria) ==> criteria[k].Id in d.Coefficients
+//@             && d.Coefficients[criteria[k].Id] == mapped(loss, gain, scaledDiff(a, r, criteria[k], scaleRatios[criteria[k].Id]))
+
+//@ func calculateDiffsPerReferencePoint
+//@   property C19
+//@   requires model.distinctCriteria(*criteria)
+//@   ensures [every_alternative_against_every_point] fresh(result) && len(result) == len(alternatives) && forall ia int :: 0 <= ia && ia < len(alternatives) ==>
+//@             result[ia].Alternative == alternatives[ia] && len(result[ia].ReferencePointsDifference) == len(referencePoints)
+//@             && forall ir int :: 0 <= ir && ir < len(referencePoints) ==> diffsOf(result[ia].ReferencePointsDifference[ir], alternatives[ia], referencePoints[ir], *criteria, scaleRatios, loss, gain)
+//@   loop 1 invariant [ctx] fresh(referencePointsDiffs) && len(referencePointsDiffs) == len(alternatives)
+//@   loop 1 invariant [done] forall ia int :: 0 <= ia && ia < iter ==>
+//@             referencePointsDiffs[ia].Alternative == alternatives[ia] && len(referencePointsDiffs[ia].ReferencePointsDifference) == len(referencePoints)
+//@             && forall ir int :: 0 <= ir && ir < len(referencePoints) ==> diffsOf(referencePointsDiffs[ia].ReferencePointsDifference[ir], alternatives[ia], referencePoints[ir], *criteria, scaleRatios, loss, gain)
+//@   loop 2 invariant [ctx] fresh(refPointDiffs) && len(refPointDiffs) == len(referencePoints) && 0 <= ia && ia < len(alternatives) && a == alternatives[ia]
+//@   loop 2 invariant [inner] forall ir int :: 0 <= ir && ir < iter ==> diffsOf(refPointDiffs[ir], alternatives[ia], referencePoints[ir], *criteria, scaleRatios, loss, gain)
+
+//@ func evaluatePerCriterionNormalizationScaleRatio
+//@   property C19
+//@   requires model.distinctCriteria(*criteria)
+//@   ensures [scaled_by_the_value_range] fresh(result) && forall k int :: 0 <= k && k < len(*criteria) ==> (*criteria)[k].Id in result
+//@             && result[(*criteria)[k].Id].Scale == (result[(*criteria)[k].Id].ValuesRange.Max - result[(*criteria)[k].Id].ValuesRange.Min != 0.0 ? 1.0 / (result[(*criteria)[k].Id].ValuesRange.Max - result[(*criteria)[k].Id].ValuesRange.Min) : 0.0)
+//@             && ((*criteria)[k].ValuesRange != nil ==> result[(*criteria)[k].Id].ValuesRange == *(*criteria)[k].ValuesRange)
+//@   ensures [only_criteria] forall q string :: q in result ==> exists k int :: 0 <= k && k < len(*criteria) && (*criteria)[k].Id == q
+//@   loop 1 invariant [ctx] fresh(scaleRatios) && scaleRatios != nil
+//@   loop 1 invariant [done] forall k int :: 0 <= k && k < iter ==> (*criteria)[k].Id in scaleRatios
+//@             && scaleRatios[(*criteria)[k].Id].Scale == (scaleRatios[(*criteria)[k].Id].ValuesRange.Max - scaleRatios[(*criteria)[k].Id].ValuesRange.Min != 0.0 ? 1.0 / (scaleRatios[(*criteria)[k].Id].ValuesRange.Max - scaleRatios[(*criteria)[k].Id].ValuesRange.Min) : 0.0)
+//@             && ((*criteria)[k].ValuesRange != nil ==> scaleRatios[(*criteria)[k].Id].ValuesRange == *(*criteria)[k].ValuesRange)
+//@   loop 1 invariant [only] forall q string :: q in scaleRatios ==> exists k int :: 0 <= k && k < iter && (*criteria)[k].Id == q
